@@ -236,6 +236,22 @@ func (c *Ctx) blockReturnsErr(b *ast.BlockStmt, errObj types.Object) (bool, stri
 	if len(b.List) == 0 {
 		return false, "the error branch is empty: the error is swallowed"
 	}
+	// panic(err) / panic(fmt.Errorf(.. err ..)): the failure is not silent (whether a panic is acceptable there is
+	// decided by the panic-site inventory, not here)
+	if es, isExpr := b.List[len(b.List)-1].(*ast.ExprStmt); isExpr {
+		if call, isCall := es.X.(*ast.CallExpr); isCall && c.isBuiltin(call, "panic") {
+			uses := false
+			ast.Inspect(call, func(n ast.Node) bool {
+				if id, ok := n.(*ast.Ident); ok && c.objOf(id) == errObj {
+					uses = true
+				}
+				return true
+			})
+			if uses {
+				return true, ""
+			}
+		}
+	}
 	rs, ok := b.List[len(b.List)-1].(*ast.ReturnStmt)
 	if !ok {
 		return false, "the error branch does not return: the error is swallowed"
